@@ -17,4 +17,6 @@ for p in "$@"; do
   [ -n "$rp" ] && [ -f "$rp" ] && echo "   why: $(sed -n 2p "$rp" | cut -c1-220)"
 done
 git -C /repo checkout -- .
+# the generated Lean files follow the source: bring them back to the unchanged tree
+(cd /verif && python3 tools/rs2lean.py >/dev/null; python3 tools/extract_orderings.py >/dev/null; python3 tools/extract_bounds.py >/dev/null)
 git -C /repo status --short | head -3
